@@ -77,7 +77,15 @@ fn probe(list: &[String], names: &[String], delivery: Delivery) -> Result<Vec<(S
     match r.quiescent(sent) {
         Wait::Idle => {}
         Wait::Finished => return Err("session ended".into()),
-        Wait::Timeout => return Err("watchdog".into()),
+        Wait::Timeout => {
+            let _ = r.send(crate::refsim::CANCEL);
+            for p in crate::phook::take_panics() {
+                if p.thread.starts_with("fsm_") {
+                    return Err(format!("session-thread-panic: {} @ {}", p.message, p.location));
+                }
+            }
+            return Err("watchdog".into());
+        }
     }
     r.finish();
     let info = &r.info;
@@ -200,6 +208,12 @@ pub fn run(args: &Args, rep: &mut Report) {
                             "reader-rejects-descriptor",
                             &format!("the reader rejected event=\"{}\": {}", list.join(" "), e),
                             json!({"descriptors": list, "error": e}),
+                        );
+                    } else if e.starts_with("session-thread-panic") {
+                        rep.violation(
+                            &format!("matching-panics:{}", e.rsplit(" @ ").next().unwrap_or("?")),
+                            &format!("while the names were matched against event=\"{}\" the session thread panicked ({}): no matching result for the remaining names", list.join(" "), e),
+                            json!({"descriptors": list, "names_head": ns.iter().take(40).collect::<Vec<_>>(), "delivery": format!("{:?}", delivery), "panic": e}),
                         );
                     } else {
                         rep.inconclusive(&format!("{} for descriptors {:?}", e, list));
